@@ -14,7 +14,35 @@ REQUIRED_FAULTS = ["F5.refused_api_call", "F9.restart_path", "F3.colliding_pair_
 MACHINES = ["M-IM"]
 
 
+def legacy_then_add(rng):
+    """The node restarts on a pre-1.1 copy of its manifest (subvariant did not exist: every image comes back with '')
+    and then keeps adding: the identity rule applies to the upgraded, current-version object."""
+    imgs = gen_im.gen_c09_pool(rng, n_ident=rng.randint(2, 5))
+    for img in imgs:
+        img["subvariant"] = ""
+        img["unified"] = False
+        img["additional_variants"] = []
+    ops = [{"op": "im_init", "compose": pools.compose(rng, {"short": "F", "version": "20"}), "version": "1.2"}]
+    for i, img in enumerate(imgs):
+        ops.append({"op": "img_new", "iid": i, "attrs": img})
+    path = "/sim/d/images.json"
+    for _ in range(rng.randint(1, 4)):
+        ops.append({"op": "img_add", "variant": pick(rng, ["Server", "Client"]), "arch": pick(rng, pools.ARCHES[:3]), "iid": rng.randrange(len(imgs))})
+    ops.append({"op": "dump", "path": path})
+    ops.append({"op": "im_downgrade", "path": path, "version": pick(rng, ["1.0", "1.0", "1.1"]), "src_variants": [], "tag": "C09"})
+    ops.append({"op": "restart", "path": path, "via": pick(rng, ["path", "handle", "loads"]), "offset": rng.randint(0, 300)})
+    for i, img in enumerate(imgs):
+        ops.append({"op": "img_new", "iid": 1000 + i, "attrs": dict(img, path=img["path"] + ".g1")})
+    for _ in range(rng.randint(2, 8)):
+        ops.append({"op": "img_add", "variant": pick(rng, ["Server", "Client"]), "arch": pick(rng, pools.ARCHES[:3]), "iid": 1000 + rng.randrange(len(imgs))})
+    ops.append({"op": "dump", "path": path})
+    ops.append({"op": "restart", "path": path, "via": "path"})
+    return {"machine": "M-IM", "cfg": {"simset": pick(rng, ["insertion", "shuffle"])}, "ops": ops}
+
+
 def generate(rng, tier, idx):
+    if idx % 10 == 9:
+        return legacy_then_add(rng)
     imgs = gen_im.gen_c09_pool(rng, n_ident=rng.randint(2, 6))
     rel = {"short": "F", "version": "20"}
     version = pick(rng, [None, None, "1.2", "1.2", "1.1", "1.0", "0.3", "2.0", "1.10", "10.0", "0.11"])
